@@ -71,6 +71,12 @@ func checkC02(c *Ctx) {
 	}
 	pool := warmPool(g, false, cfgs...)
 	progs := genPrograms(c, "c02", nprog, GenOpts{NoTests: true})
+	for i := range progs {
+		// every fifth program also has a package that imports "C" (external linking, cgo-generated files)
+		if i%5 == 4 {
+			progs[i] = generate(subRand(c.Seed, "c02", c.Tier, i), GenOpts{NoTests: true, Extra: []string{"cgo"}})
+		}
+	}
 	goVersion := strings.TrimSpace(string(Run(Cmd{Env: plainEnv(), Argv: []string{"go", "env", "GOVERSION"}, Timeout: time.Minute}).Out))
 	classCount := map[string]int{}
 
